@@ -200,7 +200,7 @@ def filter_cases(draw, cpp=False, innovation=("k", "k", "none")):
         key = draw(st.sampled_from(sorted(spec["sensors"])))
         ups.append({"key": key, "point": draw(models.points(spec)), "P": draw(ekf.spd(n)),
                     "dir": [draw(st.floats(-1, 1, allow_nan=False)) for _ in range(4)],
-                    "tau": draw(st.sampled_from([0.2, 0.9, 1.1, 5.0])),
+                    "tau": draw(st.sampled_from([0.2, 0.9, 1.1, 5.0, 1 - 1e-7, 1 + 1e-7, 1 - 3e-9, 1 + 3e-9])),
                     "big": draw(st.sampled_from([10.0, 1e3, 1e6]))})
     return {"layer": "cpp" if cpp else "python", "model": spec, "updates": ups}
 
